@@ -198,6 +198,7 @@ def run_c13(tier, seed, workdir):
         got1 = run_multi(list(alone.values()), os.path.join(workdir, 'alone'))
         violations += problems('13', list(alone.values()), got1, {'threads': 1})
         solo_drop = {mid: got1.get(f"a-{mid}/p0", []) for mid in alone}
+    one_thread_equal = set()
     for threads in ([1] if tier == 'quick' else [1, 4, 8]):
         got = run_multi(cases, os.path.join(workdir, f't{threads}'), threads=threads)
         violations += problems('13', cases, got, {'threads': threads})
@@ -217,6 +218,7 @@ def run_c13(tier, seed, workdir):
                     cls, detail = '13:duplicate_start', f"start results {starts_ok}"
                 elif threads == 1 and expect == have:
                     stats['ordered_equal'] += 1
+                    one_thread_equal.add((g, pid))
                     same += 1
                     continue
                 elif outcome(expect) == outcome(have):
@@ -242,6 +244,10 @@ def run_c13(tier, seed, workdir):
                         # acts under a cache smaller than the number of live processes (reloads lose generated nodes; the one-thread
                         # runs of the same groups pin that class down by the first differing line)
                         cls = '13:generated_node_not_created'
+                    elif threads > 1 and (g, pid) in one_thread_equal:
+                        # the same process of the same group, same operations, reproduced its solo trace line by line on one
+                        # worker thread in this very run: the difference comes with the thread schedule
+                        cls = '13:thread_schedule'
                     else:
                         cls = f"13:{ex.split(' ')[0]}/{ob.split(' ')[0]}"
                     detail = f"alone the process continues with `{ex}`, under load with `{ob}` (line {k})"
